@@ -829,8 +829,8 @@ func (s *State) extendFunctionEnv(
 		// By definition function parameters are local copies, deref argument values:
 		pval := object.Value(args[paramIdx])
 		needVariable := true
-		// (all caps names are constants: they go through the checked setter, never a register.)
-		if !s.NoReg && pval.Type() == object.INTEGER && env.HasRegisters() && !object.Constant(param.Value().Literal()) {
+		// (all caps names are constants and extension names can't be set: they go through the checked setter, never a register.)
+		if !s.NoReg && pval.Type() == object.INTEGER && env.HasRegisters() && registerName(param.Value().Literal()) {
 			// We will release all these registers just by returning/dropping the env.
 			_, nbody, ok := setupRegister(env, param.Value().Literal(), pval.(object.Integer).Value, newBody)
 			if ok {
@@ -919,6 +919,12 @@ func (s *State) evalIfExpression(ie *ast.IfExpression) object.Object {
 	}
 }
 
+// registerName tells if a variable of that name may live in a register: constants and extension function names
+// must go through the checked setter so they behave the same with and without registers.
+func registerName(name string) bool {
+	return !object.Constant(name) && !object.IsExtraFunction(name)
+}
+
 func ModifyRegister(register *object.Register, in ast.Node) (ast.Node, bool) {
 	switch in := in.(type) {
 	case *ast.Identifier:
@@ -989,7 +995,7 @@ func (s *State) evalForInteger(fe *ast.ForExpression, start *int64, end int64, n
 	var newBody ast.Node
 	var register object.Register
 	newBody = fe.Body
-	if name != "" && !s.NoReg && s.env.HasRegisters() && !object.Constant(name) {
+	if name != "" && !s.NoReg && s.env.HasRegisters() && registerName(name) {
 		var ok bool
 		register, newBody, ok = setupRegister(s.env, name, int64(startValue), fe.Body)
 		if ok {
